@@ -478,7 +478,7 @@ def check_C15(rep):
 
     # 1. exhaustive exploration of the specification + TLC-simulated behaviours (JVMs side by side)
     bounds = [{"MaxPkts": [2], "MaxFrames": 2, "MaxPos": 3, "MaxNpk": 4}] if quick else \
-        [{"MaxPkts": [2, 3], "MaxFrames": 2, "MaxPos": 6, "MaxNpk": 4}, {"MaxPkts": [2], "MaxFrames": 3, "MaxPos": 6, "MaxNpk": 4}]
+        [{"MaxPkts": [2, 3], "MaxFrames": 2, "MaxPos": 5, "MaxNpk": 4}, {"MaxPkts": [2], "MaxFrames": 3, "MaxPos": 4, "MaxNpk": 4}]
     thunks = [(lambda b=b: tlc.model_check(SPEC_DIR, "MCIsoIn", _render("MCIsoIn.cfg.tmpl", b),
                                            workers=6 if quick else None, timeout=3000)) for b in bounds]
     thunks.append(lambda: tlc.simulate(SPEC_DIR, "MCIsoIn", _render("MCIsoIn_sim.cfg.tmpl", {"MaxPkts": [2, 3] if quick else [1, 2, 3, 4]}),
@@ -493,7 +493,7 @@ def check_C15(rep):
         conf, ops = iso_in_ops_from_behaviour(beh)
         jobs.append((conf["maxPkt"], conf["epNum"], ops, "tlc-simulate", {"stall_prob": 0.0 if i % 2 == 0 else 0.3}))
     rnd = [(1, 2), (2, 1), (3, 1), (4, 7), (8, 15), (16, 1)] if quick else \
-        [(1, 2), (2, 1), (3, 1), (4, 7), (5, 4), (8, 15), (16, 1), (32, 9), (64, 1), (512, 2)]
+        [(1, 2), (2, 1), (3, 1), (4, 7), (5, 4), (8, 15), (16, 1), (32, 9), (64, 1)]
     for mp, epn in rnd:
         n_tr = (6 if mp <= 8 else 3) if quick else (40 if mp <= 16 else 10)
         for i in range(n_tr):
